@@ -155,7 +155,9 @@ func c10Specs(tier string) []*seq.Spec {
 		depth = 7
 	}
 	_ = probes
-	return []*seq.Spec{msSpec("statecache", cfg, depth)}
+	d := *cfg
+	d.direct = true
+	return []*seq.Spec{msSpec("statecache", cfg, depth), msSpec("statecache-direct-writes", &d, depth-2)}
 }
 
 // c10LongChains: chains long enough that cache slots are recycled (capacity 12).
